@@ -267,6 +267,11 @@ Definition string_concat (free l1 l2 : Z) : outcome Z :=
   bind (must_be_ok free (Z.quot (wrap64 (l1 + l2)) object_ObjectSize)) (fun _ => Val (l1 + l2)).
 Definition string_concat_pinned (free l1 l2 : Z) : outcome Z := Val (l1 + l2).
 
+(* [..] + x for a non-array x : MustBeOk(len+1) since d373dd4 (no check as pinned: the append copies the whole left operand) *)
+Definition array_append_elem (free l : Z) : outcome Z :=
+  bind (must_be_ok free (wrap64 (l + 1))) (fun _ => Val (l + 1)).
+Definition array_append_elem_pinned (free l : Z) : outcome Z := Val (l + 1).
+
 (* [..] + [..] *)
 Definition array_concat (free l1 l2 : Z) : outcome Z :=
   bind (must_be_ok free (wrap64 (l1 + l2))) (fun _ => Val (l1 + l2)).
